@@ -143,12 +143,12 @@ def check_problem(ctx, rep, spec, i_problem):
         disc_fixed = {i: v for i, v in fixed.items() if not is_cont[i]}
         mr = ctx.driver.ask('restrict', kinds=kinds, n_opts=[(dv.n_opts if dv.is_discrete else 1) for dv in dvs], rows=mrows,
                             ops=[{'op': 'fix', 'i': i, 'v': int(v)} for i, v in sorted(disc_fixed.items())])
-        want_rows = sorted(tuple(r) for r in mr['rows'])
-        got_rows = sorted(tuple(None if (a is False) else (0 if is_cont[j] else int(v)) for j, (v, a) in enumerate(zip(x, act_)))
-                          for x, act_ in [(fx, [a if j not in fixed else True for j, a in enumerate(fa)]) for fx, fa in got])
+        want_rows = sorted((tuple(r) for r in mr['rows']), key=repr)
+        got_rows = sorted((tuple(None if (a is False) else (0 if is_cont[j] else int(v)) for j, (v, a) in enumerate(zip(x, act_)))
+                           for x, act_ in [(fx, [a if j not in fixed else True for j, a in enumerate(fa)]) for fx, fa in got]), key=repr)
         # fixed columns carry no activeness in the restricted enumeration: compare them on the value only
         def strip(rows_):
-            return sorted(tuple('f' if j in fixed else v for j, v in enumerate(r)) for r in rows_)
+            return sorted((tuple('f' if j in fixed else v for j, v in enumerate(r)) for r in rows_), key=repr)
         if strip(got_rows) != strip(want_rows):
             dis('restricted-rows-vs-model', case, {'n_impl': len(got_rows), 'n_model': len(want_rows)}, fixed_conditional=cond)
         if nv_f != len(rows):
